@@ -958,7 +958,7 @@ theorem planDict_fits_var (n : Nat) : ∀ (kvs : KVs) (off : Nat) (fs : Fields) 
                planDict_fits_var n rest off fs size cur' sz hok hp hle hsz⟩
 end
 
-/-! ### errors of the pre-pass: never `oob`; `divzero` only with open arrays of zero-size items -/
+/-! ### errors of the pre-pass: Python exceptions only, never `oob` -/
 
 theorem newArrayLength_err {x : Init} {e : Err} (h : newArrayLength x = .error e) :
     e = .overflow ∨ e = .value ∨ e = .type := by
